@@ -67,7 +67,44 @@ pub fn drivers(spec: SpecId) -> Vec<Driver> {
         ("blockhash_reader(e1)".to_string(), tx(eoa(1), 0, Some(contract(7)), 0, Default::default())),
     ];
     v.push(Driver { case: Case::new("blockhash", spec, db, txs), stale_keys: vec![] });
+    // a custom precompile that ignores a database fault returned by the facade: the fault must
+    // still take effect
+    {
+        use super::pc::*;
+        let mut db = MemDb::default();
+        blocks::rich(&mut db, 2);
+        db.deploy(contract(9), kit::store());
+        db.set_storage(contract(9), 1, 11);
+        let txs = vec![
+            ("transfer(e0->e1)".to_string(), transfer(eoa(0), 0, eoa(1), 1)),
+            ("pc.fault-ignore(S,1)(e1)".to_string(), call(eoa(1), 0, pc_addr(PC_FAULT_IGNORE), &[word_addr(contract(9)), word(1)])),
+        ];
+        let mut case = Case::new("pc-fault-ignore", spec, db, txs);
+        case.precompiles = Some(all());
+        v.push(Driver { case, stale_keys: vec![] });
+    }
     v
+}
+
+/// State-dependent fatal precompile error (no database fault involved): tx1 calls a precompile that
+/// fails fatally iff S.slot1 is zero. `armed`: tx0 makes the slot non-zero, so only a *stale*
+/// attempt of tx1 sees the fatal error; otherwise in-order execution fails at tx1.
+pub fn fatal_precompile_case(spec: SpecId, armed: bool) -> Case {
+    use super::pc::*;
+    let mut db = MemDb::default();
+    blocks::rich(&mut db, 3);
+    db.deploy(contract(9), kit::store());
+    let txs = vec![
+        (
+            if armed { "store(S,1,5)(e0)" } else { "store(S,2,5)(e0)" }.to_string(),
+            call(eoa(0), 0, contract(9), &[word(if armed { 1 } else { 2 }), word(5)]),
+        ),
+        ("pc.fatal-if-zero(S,1)(e1)".to_string(), call(eoa(1), 0, pc_addr(PC_FATAL_IF_ZERO), &[word_addr(contract(9)), word(1)])),
+        ("transfer(e2->e0)".to_string(), transfer(eoa(2), 0, eoa(0), 1)),
+    ];
+    let mut case = Case::new(if armed { "pc-fatal-stale-only" } else { "pc-fatal-in-order" }, spec, db, txs);
+    case.precompiles = Some(all());
+    case
 }
 
 fn db_err_string(key: &DbKey) -> String {
@@ -161,6 +198,16 @@ pub fn fault_job(d: &Driver, fault: FaultPlan, in_order_key: bool, workers: usiz
 pub fn jobs(tier: Tier) -> Vec<Job> {
     let mut v = Vec::new();
     let spec = SpecId::CANCUN;
+    // state-dependent fatal precompile errors: the observation must equal the reference in every
+    // schedule (an error only if in-order execution fails, then with the exact prefix)
+    for armed in [true, false] {
+        let case = fatal_precompile_case(spec, armed);
+        for w in [1usize, 2] {
+            v.push(pipeline_job("c04-pc-fatal", &case, &RunCfg::parallel(w), COARSE, if tier == Tier::Quick { 2 } else { 3 }, true));
+        }
+        v.push(pipeline_job("c04-pc-fatal", &case, &RunCfg::parallel(2), FOCUS_ATTEMPT, if tier == Tier::Quick { 4 } else { 5 }, true));
+        v.push(pipeline_job("c04-pc-fatal", &case, &RunCfg::sequential(), COARSE, 0, false));
+    }
     for d in drivers(spec) {
         let free = reference(&d.case, None);
         let in_order: BTreeSet<DbKey> = free.keys_read.iter().cloned().collect();
